@@ -341,4 +341,87 @@ theorem sortByKey_sorted {α} : ∀ (l : List (List Char × α)), KeySorted (sor
   | [] => by simp [sortByKey, KeySorted]
   | x :: xs => by simp only [sortByKey]; exact insertByKey_sorted x _ (sortByKey_sorted xs)
 
+/-! ### replace chains (the source's `.replace(..).replace(..)`) are one-pass escapes -/
+
+/-- one pass over the string: every character that has a replacement is replaced by it -/
+def onePass (ps : List (Char × List Char)) (s : List Char) : List Char :=
+  s.flatMap (fun x => match ps.find? (fun p => p.1 == x) with | some p => p.2 | none => [x])
+
+/-- no replacement text contains a character that a *later* replace of the chain looks for -/
+def chainOK : List (Char × List Char) → Bool
+  | [] => true
+  | (_, t) :: ps => ps.all (fun q => !t.contains q.1) && chainOK ps
+
+theorem onePass_fixed (ps : List (Char × List Char)) (t : List Char) (h : ps.all (fun q => !t.contains q.1) = true) :
+    onePass ps t = t := by
+  unfold onePass
+  induction t with
+  | nil => rfl
+  | cons x xs ih =>
+    have hx : ps.find? (fun p => p.1 == x) = none := by
+      rw [List.find?_eq_none]
+      intro q hq
+      have := List.all_eq_true.mp h q hq
+      simp only [Bool.not_eq_true', List.contains_eq_mem, List.mem_cons, decide_eq_false_iff_not, not_or] at this
+      simpa using fun e => this.1 e
+    have hrest : ps.all (fun q => !xs.contains q.1) = true := by
+      apply List.all_eq_true.mpr
+      intro q hq
+      have := List.all_eq_true.mp h q hq
+      simp only [Bool.not_eq_true', List.contains_eq_mem, List.mem_cons, decide_eq_false_iff_not, not_or] at this ⊢
+      exact this.2
+    simp only [List.flatMap_cons, hx]
+    rw [ih hrest]; rfl
+
+/-- a replace chain whose later steps never touch what earlier steps produced is one pass -/
+theorem replSeq_eq_onePass : ∀ (ps : List (Char × List Char)) (s : List Char), chainOK ps = true → replSeq ps s = onePass ps s
+  | [], s, _ => by simp [replSeq, onePass]
+  | (c, t) :: ps, s, h => by
+    simp only [chainOK, Bool.and_eq_true] at h
+    rw [replSeq, replSeq_eq_onePass ps _ h.2]
+    unfold rep1 onePass
+    rw [List.flatMap_assoc]
+    congr 1
+    funext x
+    by_cases hx : x = c
+    · subst hx
+      simp only [if_true, List.find?_cons, beq_self_eq_true]
+      exact onePass_fixed ps t h.1
+    · have : (c == x) = false := by simpa using fun e => hx e.symm
+      simp [hx, this]
+
+/-- the pairs of a chain that puts a backslash before every character of `S` -/
+def escPairs (S : List Char) : List (Char × List Char) := S.map (fun c => (c, ['\\', c]))
+
+theorem find_escPairs (S : List Char) (x : Char) :
+    (escPairs S).find? (fun p => p.1 == x) = if x ∈ S then some (x, ['\\', x]) else none := by
+  induction S with
+  | nil => simp [escPairs]
+  | cons c cs ih =>
+    simp only [escPairs, List.map_cons, List.find?_cons] at ih ⊢
+    by_cases h : c = x
+    · subst h; simp
+    · have hb : (c == x) = false := by simpa using h
+      have hx : ¬ x = c := fun e => h e.symm
+      rw [hb]
+      simp only [List.mem_cons, hx, false_or]
+      exact ih
+
+theorem onePass_escPairs (S : List Char) : ∀ s, onePass (escPairs S) s = esc S s := by
+  intro s
+  induction s with
+  | nil => rfl
+  | cons x xs ih =>
+    have hcons : onePass (escPairs S) (x :: xs) =
+        (match (escPairs S).find? (fun p => p.1 == x) with | some p => p.2 | none => [x]) ++ onePass (escPairs S) xs := by
+      simp [onePass]
+    rw [hcons, find_escPairs, ih]
+    by_cases h : x ∈ S <;> simp [esc, h]
+
+theorem escQ_eq_esc : ∀ s, escQ s = esc ['\\', '"'] s := by
+  intro s
+  induction s with
+  | nil => rfl
+  | cons c r ih => simp [escQ, esc, ih]
+
 end Cobald.LP
